@@ -32,6 +32,7 @@ def run(ctx):
     iterator_reseat(ctx, fx)
     two_level(ctx, fx)
     bag_header_gap(ctx, fx)
+    ring_steps(ctx, fx)
 
 
 def bag_header_gap(ctx, fx):
@@ -94,6 +95,68 @@ def bag_header_gap(ctx, fx):
         ctx.ob("C14.bag.first-slot-behind-header", G + "InsertBag::newHeaderFromHeap", not det, "; ".join(det), fn.loc(),
                "T=%s bytes" % esz, fnkey=f["key"])
     ctx.floor("InsertBag element sizes analysed", len(sizes), 40)
+
+
+def _tpoly(t):
+    """expression -> polynomial over the names it mentions (constants folded by the front end count as constants)"""
+    if not isinstance(t, dict):
+        return None
+    k = t.get("k")
+    if k == "int":
+        return Poly.const(t["v"])
+    if "c" in t and not isinstance(t.get("c"), dict) and k in ("ref", "mem", "sizeof"):
+        try:
+            return Poly.const(int(t["c"]))
+        except (TypeError, ValueError):
+            pass
+    if k in ("cast", "paren"):
+        return _tpoly(t.get("e"))
+    if k in ("ref", "mem"):
+        return Poly.sym(S(t))
+    if k == "bin" and t.get("op") in ("+", "-", "*"):
+        a, b = _tpoly(t["l"]), _tpoly(t["r"])
+        if a is None or b is None:
+            return None
+        return a + b if t["op"] == "+" else a - b if t["op"] == "-" else a * b
+    return None
+
+
+def ring_steps(ctx, fx):
+    ctx.rule("C14.ring.modular-step-never-subtracts",
+             "circular containers (FixedSizeRing and what is built on it): an index that is moved with `v = (v ...) % M` is "
+             "never moved by a negative amount -- stepping back is written v + M - 1, not v - 1: for an unsigned index `0 - 1` "
+             "wraps to 2^32 - 1, and (2^32 - 1) % M is M - 1 only when M is a power of two (for a signed one the result is "
+             "negative). Compared as polynomials on every instantiation (the chunk size is a constant there)")
+    n = 0
+    for f in fx.functions:
+        if f["kind"] == "pattern" or not re.search(r"galois/(FixedSizeRing|gdeque|gslist|Bag)\.h$", f["file"]):
+            continue
+        sites = []
+        for b in f.get("blocks", []):
+            for e in b["ev"]:
+                if e.get("k") == "assign" and e.get("op") == "=" and e.get("lp"):
+                    r = e.get("rhs")
+                    while isinstance(r, dict) and r.get("k") in ("cast", "paren"):
+                        r = r.get("e")
+                    # chained assignment i = start = (..) % M: the inner assignment is its own event
+                    if isinstance(r, dict) and r.get("k") == "bin" and r.get("op") == "%":
+                        sites.append((e, r))
+        for e, r in sites:
+            left = _tpoly(r["l"])
+            if left is None:
+                continue
+            v = Poly.sym(e["lp"])
+            if (e["lp"],) not in left.t:
+                continue            # not a self-update (an index computed from other values)
+            n += 1
+            delta = left - v
+            neg = {m: c for m, c in delta.t.items() if c < 0}
+            ctx.ob("C14.ring.modular-step-never-subtracts", f["qn"], not neg,
+                   "%s = (%s) %% %s moves the index by %s: when %s is 0 the subtraction wraps before the modulo is taken and "
+                   "the index lands on the wrong slot for every chunk size that is not a power of two" % (
+                       e["lp"], S(r["l"]), S(r["r"]), delta, e["lp"]),
+                   "%s:%s" % (f["file"], e.get("l")), "%s@%s" % (e["lp"], e.get("l")), fnkey=f["key"])
+    ctx.floor("modular index self-updates in the ring containers", n, 8)
 
 
 def iterator_reseat(ctx, fx):
